@@ -230,6 +230,12 @@ def c18(tier, seed):
     ck.assumptions += ["reference codec is self-checked on every generated packet (encode then decode must be the identity), a failed self-check is a harness error"]
     ck.require("codec_probe.presence_subsets")
     ck.require("codec_probe.short_forms")
+    _sim_part(ck, "C18", tier, seed,
+              "[sim] in situ: the real client against the conformant broker model (every acknowledgement shape incl. short forms, "
+              "reason strings, user properties, per-topic refusals; inbound PUBLISHes with every property; CONNACKs with capabilities); "
+              "on a connection that carried only well-formed conformant packets within the client's receive limit the client must "
+              "never answer with a DISCONNECT 0x81/0x82 'Malformed ...'")
+    ck.require("sim.conformant_packets_delivered", 5000)
     return ck.finish()
 
 
